@@ -88,6 +88,10 @@ SubStep(e) ==
   ELSE IF e.out # "ok"
   THEN /\ Keep /\ sync' = FALSE
        /\ v' = [v EXCEPT !.C04 = F(@, TRUE, "C04:valid-submit-raised-" \o e.out)]
+  ELSE IF ~e.mo /\ e.px = BadPx
+  THEN \* accepted at a price that is not even on the unit grid: nothing the model could follow
+       /\ Keep /\ sync' = FALSE
+       /\ v' = [v EXCEPT !.C19 = F(@, TRUE, "C19:" \o (IF e.c19 # "" THEN e.c19 ELSE "off-grid"))]
   ELSE
     LET o == MkOrder(e.id, e.ag, e.buy, e.mo, e.px, e.vol, e.t0, e.ttl)
         ref == MAccept(mkt, e.ag, e.buy, e.mo, e.req, e.vol, e.ttl)
@@ -109,7 +113,8 @@ SubStep(e) ==
                  !.C10 = F(@, e.lg # <<1, 0, 0, 0>>, "C10:order-records"),
                  !.REF = F(@, Hd.exact /\ m2 # ref, "REF:accept-differs")] IN
     /\ mkt' = m2
-    /\ acct' = Append(acct, [acc |-> e.vol, filled |-> 0, term |-> NoTerm, tvol |-> 0])
+    /\ acct' = Append(acct, [acc |-> e.vol, filled |-> 0, term |-> NoTerm, tvol |-> 0,
+                              lim |-> IF e.mo \/ ~Hd.exact THEN NoPx ELSE e.req, buy |-> e.buy])
     /\ objs' = objs \cup {e.obj}
     /\ seen' = seen
     /\ v' = IF idok THEN SnapV(v1, e, m2, "submit") ELSE v1
@@ -214,14 +219,22 @@ MatchStep(e) ==
   ELSE IF ~wf
   THEN /\ Keep /\ sync' = FALSE
        /\ v' = [v EXCEPT !.C04 = F(@, TRUE, "C04:fills-illformed")]
+  ELSE IF BadPx \in pxs
+  THEN /\ Keep /\ sync' = FALSE
+       /\ v' = [v EXCEPT !.C01 = F(@, TRUE, "C01:fill-price-off-the-unit-grid")]
   ELSE
     LET L2 == Apply(mkt.live, pend)
         m2 == MFills(mkt, px, pend)
         v1 == [v EXCEPT
                  !.C16 = F(@, ~mkt.running /\ Len(pend) > 0, "C16:fill-while-stopped"),
-                 !.C01 = F(F(F(F(@, Cardinality(pxs) > 1, "C01:single-price"),
+                 !.C01 = F(F(F(F(F(@, Cardinality(pxs) > 1, "C01:single-price"),
                              ~C01ok(mkt.live, px, pend), "C01:limits"),
                              ~C01rule(mkt.live, px, pend), "C01:price-rule"),
+                             \* the limit an order was SUBMITTED with bounds its fills as well (the accepted price is never more
+                             \* aggressive than the submitted one)
+                             (\E k \in 1..Len(pend) :
+                                \/ (acct[pend[k].b + 1].lim # NoPx /\ px > acct[pend[k].b + 1].lim)
+                                \/ (acct[pend[k].s + 1].lim # NoPx /\ px < acct[pend[k].s + 1].lim)), "C01:beyond-the-submitted-limit"),
                              Len(pend) > 0 /\ px = NoPx, "C01:no-price"),
                  !.C02 = F(@, ~C02ok(mkt.live, pend), "C02:priority"),
                  !.C03 = F(@, ~C03ok(L2), "C03:crossed-after"),
